@@ -2,8 +2,11 @@
    Executable definitions only; proofs are in Proofs/ConnFail_proofs.v.
 
    Code modelled (scylla/src/network/connection.rs unless stated otherwise):
-     RouterHandle::send_request 136-175        -> labels [Submit], [Drop], completion through [c_done]
-     Connection::router 1541-1606              -> [fault], [TdStep] (teardown), [c_err_sent]
+     RouterHandle::send_request 136-175        -> labels [Reserve], [Push] (the two halves of
+                                                  `submit_channel.send(task).await`), [Drop];
+                                                  completion through [c_done]
+     Connection::router 1541-1619              -> [fault], [TdStep] (teardown as of /repo bbe7c96:
+                                                  handlers, then receiver.close(), then drain), [c_err_sent]
      Connection::reader 1608-1672              -> [Recv], [drain], [dispatch]
      frame::read_response_frame (scylla-cql/src/frame/mod.rs 141-188) -> [parse_frame], [Eof]
      Connection::writer 1693-1747 / alloc_stream_id 1674-1691 -> [WriterTake]
@@ -20,9 +23,12 @@
        free (not in the handler map, not orphaned); C02 (Model/Streams.v) proves that the real
        bitmap allocator returns such an id.  [WriterTake None] (allocation failure) needs all
        32768 ids to be taken.
-     * the bounded submit channel (1024) is not bounded here: a sender blocked in `send().await`
-       and a queued task are the same thing for this property (both end with ChannelError when the
-       receiver is dropped).
+     * the submit channel (tokio mpsc, 1024 slots) is modelled with its two-phase send: [Reserve]
+       = the sender obtained a slot (fails with ChannelError once the receiver is closed), [Push] =
+       it puts the task into the slot (always possible, also after close()).  The bound itself is
+       not modelled: a sender still waiting for a slot is a sender that has not done [Reserve] yet.
+       After close(), `recv()` returns None only when no slot is reserved any more: the last
+       [TdStep] needs [c_reserved] = [].
      * io errors of the socket other than end-of-stream, the orphan-count check and event
        handling errors are the environment label [EnvFault e]; TCP delivers any byte chunking
        ([Recv] carries an arbitrary chunk).
@@ -100,7 +106,7 @@ Inductive err_kind :=
 Inductive outcome :=
 | Resp (f : frame)           (* Ok(TaskResponse) *)
 | FailBroken (e : err_kind)  (* the router sent Err(error) to the handler *)
-| FailChannel                (* BrokenConnectionErrorKind::ChannelError: task or sender dropped, or submit refused *)
+| FailChannel                (* BrokenConnectionErrorKind::ChannelError: submit refused (receiver closed) *)
 | FailAlloc.                 (* InternalRequestError::UnableToAllocStreamId *)
 
 (* errors of the BrokenConnectionError class *)
@@ -109,7 +115,9 @@ Definition broken_class (o : outcome) : bool :=
 
 Inductive status :=
 | Open
-| TearingDown (e : err_kind)   (* try_join returned Err(e): channel receiver dropped, handlers being failed *)
+| TearingDown (e : err_kind)   (* try_join returned Err(e): reader/writer/orphaner/keepaliver are gone, the
+                                  registered handlers are being failed; the task channel is still open *)
+| Draining (e : err_kind)      (* receiver.close() done: submits are refused, delivered tasks are being failed *)
 | Broken (e : err_kind).       (* router finished; error sent to error_sender *)
 
 Record conn := mk_conn {
@@ -118,6 +126,7 @@ Record conn := mk_conn {
   c_handlers : list (N * N);
   c_orphans : list N;
   c_queue : list N;
+  c_reserved : list N;
   c_notices : list N;
   c_ka : option N;
   c_done : list (N * outcome);
@@ -132,43 +141,47 @@ Record conn := mk_conn {
 }.
 
 Definition set_status (x : status) (st : conn) : conn :=
-  mk_conn x (c_rbuf st) (c_handlers st) (c_orphans st) (c_queue st) (c_notices st) (c_ka st) (c_done st) (c_submitted st) (c_cancelled st) (c_written st) (c_received st) (c_consumed st) (c_events st) (c_control st) (c_err_sent st).
+  mk_conn x (c_rbuf st) (c_handlers st) (c_orphans st) (c_queue st) (c_reserved st) (c_notices st) (c_ka st) (c_done st) (c_submitted st) (c_cancelled st) (c_written st) (c_received st) (c_consumed st) (c_events st) (c_control st) (c_err_sent st).
 Definition set_rbuf (x : list N) (st : conn) : conn :=
-  mk_conn (c_status st) x (c_handlers st) (c_orphans st) (c_queue st) (c_notices st) (c_ka st) (c_done st) (c_submitted st) (c_cancelled st) (c_written st) (c_received st) (c_consumed st) (c_events st) (c_control st) (c_err_sent st).
+  mk_conn (c_status st) x (c_handlers st) (c_orphans st) (c_queue st) (c_reserved st) (c_notices st) (c_ka st) (c_done st) (c_submitted st) (c_cancelled st) (c_written st) (c_received st) (c_consumed st) (c_events st) (c_control st) (c_err_sent st).
 Definition set_handlers (x : list (N * N)) (st : conn) : conn :=
-  mk_conn (c_status st) (c_rbuf st) x (c_orphans st) (c_queue st) (c_notices st) (c_ka st) (c_done st) (c_submitted st) (c_cancelled st) (c_written st) (c_received st) (c_consumed st) (c_events st) (c_control st) (c_err_sent st).
+  mk_conn (c_status st) (c_rbuf st) x (c_orphans st) (c_queue st) (c_reserved st) (c_notices st) (c_ka st) (c_done st) (c_submitted st) (c_cancelled st) (c_written st) (c_received st) (c_consumed st) (c_events st) (c_control st) (c_err_sent st).
 Definition set_orphans (x : list N) (st : conn) : conn :=
-  mk_conn (c_status st) (c_rbuf st) (c_handlers st) x (c_queue st) (c_notices st) (c_ka st) (c_done st) (c_submitted st) (c_cancelled st) (c_written st) (c_received st) (c_consumed st) (c_events st) (c_control st) (c_err_sent st).
+  mk_conn (c_status st) (c_rbuf st) (c_handlers st) x (c_queue st) (c_reserved st) (c_notices st) (c_ka st) (c_done st) (c_submitted st) (c_cancelled st) (c_written st) (c_received st) (c_consumed st) (c_events st) (c_control st) (c_err_sent st).
 Definition set_queue (x : list N) (st : conn) : conn :=
-  mk_conn (c_status st) (c_rbuf st) (c_handlers st) (c_orphans st) x (c_notices st) (c_ka st) (c_done st) (c_submitted st) (c_cancelled st) (c_written st) (c_received st) (c_consumed st) (c_events st) (c_control st) (c_err_sent st).
+  mk_conn (c_status st) (c_rbuf st) (c_handlers st) (c_orphans st) x (c_reserved st) (c_notices st) (c_ka st) (c_done st) (c_submitted st) (c_cancelled st) (c_written st) (c_received st) (c_consumed st) (c_events st) (c_control st) (c_err_sent st).
+Definition set_reserved (x : list N) (st : conn) : conn :=
+  mk_conn (c_status st) (c_rbuf st) (c_handlers st) (c_orphans st) (c_queue st) x (c_notices st) (c_ka st) (c_done st) (c_submitted st) (c_cancelled st) (c_written st) (c_received st) (c_consumed st) (c_events st) (c_control st) (c_err_sent st).
 Definition set_notices (x : list N) (st : conn) : conn :=
-  mk_conn (c_status st) (c_rbuf st) (c_handlers st) (c_orphans st) (c_queue st) x (c_ka st) (c_done st) (c_submitted st) (c_cancelled st) (c_written st) (c_received st) (c_consumed st) (c_events st) (c_control st) (c_err_sent st).
+  mk_conn (c_status st) (c_rbuf st) (c_handlers st) (c_orphans st) (c_queue st) (c_reserved st) x (c_ka st) (c_done st) (c_submitted st) (c_cancelled st) (c_written st) (c_received st) (c_consumed st) (c_events st) (c_control st) (c_err_sent st).
 Definition set_ka (x : option N) (st : conn) : conn :=
-  mk_conn (c_status st) (c_rbuf st) (c_handlers st) (c_orphans st) (c_queue st) (c_notices st) x (c_done st) (c_submitted st) (c_cancelled st) (c_written st) (c_received st) (c_consumed st) (c_events st) (c_control st) (c_err_sent st).
+  mk_conn (c_status st) (c_rbuf st) (c_handlers st) (c_orphans st) (c_queue st) (c_reserved st) (c_notices st) x (c_done st) (c_submitted st) (c_cancelled st) (c_written st) (c_received st) (c_consumed st) (c_events st) (c_control st) (c_err_sent st).
 Definition set_done (x : list (N * outcome)) (st : conn) : conn :=
-  mk_conn (c_status st) (c_rbuf st) (c_handlers st) (c_orphans st) (c_queue st) (c_notices st) (c_ka st) x (c_submitted st) (c_cancelled st) (c_written st) (c_received st) (c_consumed st) (c_events st) (c_control st) (c_err_sent st).
+  mk_conn (c_status st) (c_rbuf st) (c_handlers st) (c_orphans st) (c_queue st) (c_reserved st) (c_notices st) (c_ka st) x (c_submitted st) (c_cancelled st) (c_written st) (c_received st) (c_consumed st) (c_events st) (c_control st) (c_err_sent st).
 Definition set_submitted (x : list N) (st : conn) : conn :=
-  mk_conn (c_status st) (c_rbuf st) (c_handlers st) (c_orphans st) (c_queue st) (c_notices st) (c_ka st) (c_done st) x (c_cancelled st) (c_written st) (c_received st) (c_consumed st) (c_events st) (c_control st) (c_err_sent st).
+  mk_conn (c_status st) (c_rbuf st) (c_handlers st) (c_orphans st) (c_queue st) (c_reserved st) (c_notices st) (c_ka st) (c_done st) x (c_cancelled st) (c_written st) (c_received st) (c_consumed st) (c_events st) (c_control st) (c_err_sent st).
 Definition set_cancelled (x : list N) (st : conn) : conn :=
-  mk_conn (c_status st) (c_rbuf st) (c_handlers st) (c_orphans st) (c_queue st) (c_notices st) (c_ka st) (c_done st) (c_submitted st) x (c_written st) (c_received st) (c_consumed st) (c_events st) (c_control st) (c_err_sent st).
+  mk_conn (c_status st) (c_rbuf st) (c_handlers st) (c_orphans st) (c_queue st) (c_reserved st) (c_notices st) (c_ka st) (c_done st) (c_submitted st) x (c_written st) (c_received st) (c_consumed st) (c_events st) (c_control st) (c_err_sent st).
 Definition set_written (x : list (N * N)) (st : conn) : conn :=
-  mk_conn (c_status st) (c_rbuf st) (c_handlers st) (c_orphans st) (c_queue st) (c_notices st) (c_ka st) (c_done st) (c_submitted st) (c_cancelled st) x (c_received st) (c_consumed st) (c_events st) (c_control st) (c_err_sent st).
+  mk_conn (c_status st) (c_rbuf st) (c_handlers st) (c_orphans st) (c_queue st) (c_reserved st) (c_notices st) (c_ka st) (c_done st) (c_submitted st) (c_cancelled st) x (c_received st) (c_consumed st) (c_events st) (c_control st) (c_err_sent st).
 Definition set_received (x : list N) (st : conn) : conn :=
-  mk_conn (c_status st) (c_rbuf st) (c_handlers st) (c_orphans st) (c_queue st) (c_notices st) (c_ka st) (c_done st) (c_submitted st) (c_cancelled st) (c_written st) x (c_consumed st) (c_events st) (c_control st) (c_err_sent st).
+  mk_conn (c_status st) (c_rbuf st) (c_handlers st) (c_orphans st) (c_queue st) (c_reserved st) (c_notices st) (c_ka st) (c_done st) (c_submitted st) (c_cancelled st) (c_written st) x (c_consumed st) (c_events st) (c_control st) (c_err_sent st).
 Definition set_consumed (x : list frame) (st : conn) : conn :=
-  mk_conn (c_status st) (c_rbuf st) (c_handlers st) (c_orphans st) (c_queue st) (c_notices st) (c_ka st) (c_done st) (c_submitted st) (c_cancelled st) (c_written st) (c_received st) x (c_events st) (c_control st) (c_err_sent st).
+  mk_conn (c_status st) (c_rbuf st) (c_handlers st) (c_orphans st) (c_queue st) (c_reserved st) (c_notices st) (c_ka st) (c_done st) (c_submitted st) (c_cancelled st) (c_written st) (c_received st) x (c_events st) (c_control st) (c_err_sent st).
 Definition set_events (x : list frame) (st : conn) : conn :=
-  mk_conn (c_status st) (c_rbuf st) (c_handlers st) (c_orphans st) (c_queue st) (c_notices st) (c_ka st) (c_done st) (c_submitted st) (c_cancelled st) (c_written st) (c_received st) (c_consumed st) x (c_control st) (c_err_sent st).
+  mk_conn (c_status st) (c_rbuf st) (c_handlers st) (c_orphans st) (c_queue st) (c_reserved st) (c_notices st) (c_ka st) (c_done st) (c_submitted st) (c_cancelled st) (c_written st) (c_received st) (c_consumed st) x (c_control st) (c_err_sent st).
 Definition set_control (x : bool) (st : conn) : conn :=
-  mk_conn (c_status st) (c_rbuf st) (c_handlers st) (c_orphans st) (c_queue st) (c_notices st) (c_ka st) (c_done st) (c_submitted st) (c_cancelled st) (c_written st) (c_received st) (c_consumed st) (c_events st) x (c_err_sent st).
+  mk_conn (c_status st) (c_rbuf st) (c_handlers st) (c_orphans st) (c_queue st) (c_reserved st) (c_notices st) (c_ka st) (c_done st) (c_submitted st) (c_cancelled st) (c_written st) (c_received st) (c_consumed st) (c_events st) x (c_err_sent st).
 Definition set_err_sent (x : bool) (st : conn) : conn :=
-  mk_conn (c_status st) (c_rbuf st) (c_handlers st) (c_orphans st) (c_queue st) (c_notices st) (c_ka st) (c_done st) (c_submitted st) (c_cancelled st) (c_written st) (c_received st) (c_consumed st) (c_events st) (c_control st) x.
-
+  mk_conn (c_status st) (c_rbuf st) (c_handlers st) (c_orphans st) (c_queue st) (c_reserved st) (c_notices st) (c_ka st) (c_done st) (c_submitted st) (c_cancelled st) (c_written st) (c_received st) (c_consumed st) (c_events st) (c_control st) x.
 
 Definition conn_init (control : bool) : conn :=
-  mk_conn Open [] [] [] [] [] None [] [] [] [] [] [] [] control false.
+  mk_conn Open [] [] [] [] [] [] None [] [] [] [] [] [] [] control false.
 
 Definition is_open (st : conn) : bool := match c_status st with Open => true | _ => false end.
+(* receiver.close() has been called (or the router is gone) *)
+Definition chan_closed (st : conn) : bool :=
+  match c_status st with Draining _ | Broken _ => true | _ => false end.
 
 (* handler map helpers: (stream id, request id) *)
 Fixpoint find_stream (s : N) (h : list (N * N)) : option N :=
@@ -237,7 +250,8 @@ Fixpoint drain (fuel : nat) (st : conn) : conn :=
   end.
 
 Inductive label :=
-| Submit (r : N)              (* a caller runs send_request with fresh request id r *)
+| Reserve (r : N)             (* a caller runs send_request with fresh request id r and gets a channel slot *)
+| Push (r : N)                (* ... and puts its task into the slot *)
 | KaTick (r : N)              (* the keepaliver issues OPTIONS with request id r *)
 | WriterTake (s : option N)   (* writer takes the next task; Some s: allocated stream id; None: no id left *)
 | Recv (bs : list N)          (* the socket hands a chunk to the reader *)
@@ -250,12 +264,16 @@ Inductive label :=
 
 Definition step (st : conn) (l : label) : option conn :=
   match l with
-  | Submit r =>
+  | Reserve r =>
       if nmem r (c_submitted st) then None
       else
         let st := set_submitted (c_submitted st ++ [r]) st in
-        if is_open st then Some (set_queue (c_queue st ++ [r]) st)
-        else Some (complete r FailChannel st)       (* submit_channel.send fails: receiver dropped *)
+        if chan_closed st then Some (complete r FailChannel st)   (* submit_channel.send fails *)
+        else Some (set_reserved (c_reserved st ++ [r]) st)
+  | Push r =>
+      if nmem r (c_reserved st)
+      then Some (set_queue (c_queue st ++ [r]) (set_reserved (nremove r (c_reserved st)) st))
+      else None
   | KaTick r =>
       if nmem r (c_submitted st) then None
       else if negb (is_open st) then None
@@ -315,12 +333,22 @@ Definition step (st : conn) (l : label) : option conn :=
   | TdStep =>
       match c_status st with
       | TearingDown e =>
+          (* `for (_, handler) in response_handlers { handler.response_sender.send(Err(error)) }`,
+             then `receiver.close()` *)
+          match c_handlers st with
+          | (s, r) :: h => Some (complete r (FailBroken e) (set_handlers h st))
+          | [] => Some (set_status (Draining e) st)
+          end
+      | Draining e =>
+          (* `while let Some(task) = receiver.recv().await { ...send(Err(error)) }`: a delivered task
+             is failed; with nothing delivered, recv() ends the loop only when no slot is reserved,
+             otherwise it waits (no step) for the [Push] of a reserved sender *)
           match c_queue st with
-          | r :: q => Some (complete r FailChannel (set_queue q st))        (* dropping the receiver drops the task *)
+          | r :: q => Some (complete r (FailBroken e) (set_queue q st))
           | [] =>
-              match c_handlers st with
-              | (s, r) :: h => Some (complete r (FailBroken e) (set_handlers h st))
+              match c_reserved st with
               | [] => Some (set_err_sent true (set_status (Broken e) st))
+              | _ :: _ => None
               end
           end
       | _ => None
@@ -336,17 +364,34 @@ Fixpoint run (st : conn) (ls : list label) : option conn :=
 Definition reachable (ctl : bool) (st : conn) : Prop := exists ls, run (conn_init ctl) ls = Some st.
 
 (* requests a caller may still be waiting for *)
-Definition pending_rids (st : conn) : list N := map snd (c_handlers st) ++ c_queue st.
+Definition pending_rids (st : conn) : list N :=
+  map snd (c_handlers st) ++ c_queue st ++ c_reserved st.
 
 (* number of teardown steps left *)
 Definition td_measure (st : conn) : nat :=
   match c_status st with
-  | TearingDown _ => S (List.length (c_queue st) + List.length (c_handlers st))
+  | TearingDown _ =>
+      S (S (List.length (c_handlers st) + List.length (c_queue st) + 2 * List.length (c_reserved st)))
+  | Draining _ => S (List.length (c_queue st) + 2 * List.length (c_reserved st))
   | _ => O
   end.
 
 Fixpoint outcome_of (r : N) (d : list (N * outcome)) : option outcome :=
   match d with [] => None | (r', o) :: t => if r' =? r then Some o else outcome_of r t end.
+
+(* ---------------------------------------------------------------- the router before /repo bbe7c96 *)
+(* Until commit bbe7c96 ("fix: fail requests stranded in the submit channel when a connection's
+   router ends") the end of router() dropped the receiver together with the writer future (which
+   closes the channel and drops the tasks delivered so far) and then failed the handlers, without
+   waiting for senders that already held a slot.  [old_finish] is that whole teardown in one go;
+   it is NOT part of [step]; Props/C10.v uses it to show what the fix repaired. *)
+Fixpoint complete_all (rs : list N) (o : outcome) (st : conn) : conn :=
+  match rs with [] => st | r :: t => complete_all t o (complete r o st) end.
+
+Definition old_finish (e : err_kind) (st : conn) : conn :=
+  let st1 := complete_all (c_queue st) FailChannel (set_queue [] (set_status (Draining e) st)) in
+  let st2 := complete_all (map snd (c_handlers st1)) (FailBroken e) (set_handlers [] st1) in
+  set_err_sent true (set_status (Broken e) st2).
 
 (* ---------------------------------------------------------------- the pool *)
 (* PoolRefiller: conns (the refiller's own list), shared_conns (the snapshot handed to callers),
@@ -405,7 +450,8 @@ Inductive tev :=
 Fixpoint labels_of (keep : option nat) (t : list tev) : list label :=
   match t with
   | [] => []
-  | TIn s r ka :: t' => (if ka then KaTick r else Submit r) :: WriterTake (Some s) :: labels_of keep t'
+  | TIn s r ka :: t' =>
+      (if ka then [KaTick r] else [Reserve r; Push r]) ++ WriterTake (Some s) :: labels_of keep t'
   | TOut bs :: t' =>
       match keep with
       | Some O => labels_of keep t'
@@ -425,10 +471,18 @@ Fixpoint run_lenient (st : conn) (ls : list label) : conn :=
   | l :: r => match step st l with Some st' => run_lenient st' r | None => run_lenient st r end
   end.
 
+(* one step of finishing a teardown: the router's own step if it has one, else the push of a
+   sender that holds a slot *)
+Definition td_next (st : conn) : option conn :=
+  match step st TdStep with
+  | Some st' => Some st'
+  | None => match c_reserved st with r :: _ => step st (Push r) | [] => None end
+  end.
+
 Fixpoint teardown (fuel : nat) (st : conn) : conn :=
   match fuel with
   | O => st
-  | S k => match step st TdStep with Some st' => teardown k st' | None => st end
+  | S k => match td_next st with Some st' => teardown k st' | None => st end
   end.
 
 (* the model's verdict for a recorded connection: final state after the schedule and the
